@@ -425,6 +425,41 @@ deriving DecidableEq, Repr
 structure InjectExt where
   unsealResult : Str → Str → Option Err
 
+/-! ### cmd/keymasterd `webauthnAuthFinish`, from the verification decision to the response -/
+
+/-- `u2fAuthData` (the fields the block touches) -/
+structure u2fAuthData where
+  Enabled : Bool
+  Counter : Nat
+  Name : Str
+deriving DecidableEq, Repr
+
+/-- effects of the block: a refusal, the counter written into the in-memory profile, a profile save started, the pending
+challenge consumed, audit events, the cookie raised for a user to a level, reaching the success response -/
+inductive WaEffect
+  | fail (status : Nat)
+  | setReg (reg : u2fAuthData)
+  | saveProfile (user : Str)
+  | consume (user : Str)
+  | authEvent (user : Str)
+  | webLogin (user : Str)
+  | upgrade (user : Str) (level : Nat)
+  | success
+deriving DecidableEq, Repr
+
+/-- externals: the library's `ValidateLogin` for the user's profile and the pending challenge, the unrolled
+`parsedResponse.Verify` with the found credential's key, whether user verification is required, the registration at
+the found index, the authenticator's counter, whether the pending challenge was still there (`consumeLoginChallenge`,
+translated separately), the result of the cookie upgrade -/
+structure WaExt where
+  validateLogin : Nat × Option Err
+  verifyLocal : Option Err
+  uvRequired : Bool
+  regAt : u2fAuthData × Bool
+  newCounter : Nat
+  consumeResult : Str → Bool
+  upgradeResult : Str → Nat → Str × Option Err
+
 /-! ### cmd/keymasterd `consumeLoginChallenge` -/
 
 /-- `localUserData`: the pending challenge of a user; the two challenge pointers are compared by identity (numbers
